@@ -691,6 +691,28 @@ fn d(a: u128, b: u128) -> I256 {
 }
 
 pub fn apply(s: &mut Incent, step: &Step, ctx: &mut Ctx) {
+    if let Op::ClaimMarathon { gap, rounds } = &step.op {
+        let sub = |actor: usize, op: Op| Step { actor, op, adv_s: 0, fault: Fault::None };
+        let stakers: Vec<usize> = (0..s.cfg.n_users).filter(|i| !s.obs.open[*i].is_empty()).collect();
+        apply(s, &sub(step.actor, Op::NewEpoch { n: *gap }), ctx);
+        for round in 0..=*rounds {
+            if ctx.stopped() {
+                return;
+            }
+            if round > 0 {
+                apply(s, &sub(step.actor, Op::NewEpoch { n: 1 }), ctx);
+            }
+            apply(s, &sub(step.actor, Op::Snapshot), ctx);
+            for a in &stakers {
+                if ctx.stopped() {
+                    return;
+                }
+                apply(s, &sub(*a, Op::Claim), ctx);
+            }
+        }
+        ctx.probe("claim_marathon_completed");
+        return;
+    }
     s.advance(step.adv_s);
     let na = s.na();
     let actor = step.actor % na;
@@ -709,6 +731,7 @@ pub fn apply(s: &mut Incent, step: &Step, ctx: &mut Ctx) {
         Op::Claim => do_claim(s, ctx, &before, actor, step.fault),
         Op::Snapshot => do_snapshot(s, ctx, &before, actor),
         Op::NewEpoch { n } => do_new_epoch(s, ctx, &before, actor, *n),
+        Op::ClaimMarathon { .. } => None,
     };
     if let Some(a) = after {
         s.obs = a;
